@@ -77,8 +77,18 @@ def r1(ck: Check, gm: GrowthModel) -> None:
             loop = region_of(fm, g.cfgn, [g.diag_expr, g.parent_expr])
             exempt = expanded_assertions(fm, hk, True)
             missing = []
+            inner_reset = []
+            if g.resets:
+                # the wrapper discards the data itself -- but only while the parent is not marked expanded: a mark
+                # stored by this function before the call switches that reset off
+                marks = [e.cfgn for e in handle_stores(fm, hk, "expanded") if is_true(e.value)]
+                stop_ = [fm.cfg.loop_header[loop]] if loop is not None else []   # one node per iteration of its region
+                if not any(g.cfgn.id in fm.cfg.reach_avoiding(m_, stop_) for m_ in marks):
+                    inner_reset = [g.cfgn]
             for fld in ("attractor_seeds", "attractor_sets"):
                 cuts = [e.cfgn for e in handle_stores(fm, hk, fld) if is_reset_value(e.value)] + exempt
+                if inner_reset:
+                    continue
                 esc = escapes(fm, g.cfgn, cuts, loop)
                 if esc:
                     missing.append(f"{fld} (path reaches {esc})")
@@ -87,9 +97,12 @@ def r1(ck: Check, gm: GrowthModel) -> None:
             # recomputation, expanded_attractor_candidates): they must go too, also where the seeds are replaced
             # by the empty mark
             cuts = [e.cfgn for e in handle_stores(fm, hk, "attractor_candidates") if is_reset_value(e.value)] + exempt
-            esc = escapes(fm, g.cfgn, cuts, loop)
+            esc = None if inner_reset else escapes(fm, g.cfgn, cuts, loop)
             if esc:
                 missing.append(f"attractor_candidates (path reaches {esc})")
+            if g.resets and not inner_reset and missing:
+                missing.append(f"({g.via} discards the data only for a parent that is not marked expanded, and `{text(g.parent_expr)}` "
+                               f"is marked before this call)")
             ck.ob("R1", fm, g.stmt, not missing,
                   ("node `%s` gains a successor (%s) but %s not discarded on every path" % (
                       text(g.parent_expr), g.via, " and ".join(missing) + " is/are")) if missing else
